@@ -477,6 +477,14 @@ impl<'a, T: Evaluate> PiecewiseEvaluator<'a, T> {
     }
 }
 
+/// Verification hook: the evaluator's abstract state (cursor offset, last argument).
+#[cfg(piecewise_polynomial_verif)]
+impl<'a, T> PiecewiseEvaluator<'a, T> {
+    pub fn verif_state(&self) -> (usize, u64) {
+        (self.tail.len(), self.last_evaluation.to_bits())
+    }
+}
+
 impl<T: Evaluate> Evaluate for Piecewise<T> {
     #[inline]
     fn evaluate(&self, x: f64) -> f64 {
